@@ -871,6 +871,7 @@ server_start(int track_startup) {
     rep_fail("startup:no-callouts", "coap_persist_startup did not install all five call-outs");
   R->started = 1;
 }
+static int g_leakcheck = 1; /* LeakSanitizer pass at the end of a graceful life (about as expensive as the life itself) */
 static void
 server_stop_gracefully(void) {
   coap_persist_stop(ctx);
@@ -878,7 +879,7 @@ server_stop_gracefully(void) {
   coap_free_context(ctx);
   ctx = NULL;
   ns_fini();
-  if (!getenv("C17_NOLEAK") && __lsan_do_recoverable_leak_check && __lsan_do_recoverable_leak_check()) {
+  if (g_leakcheck && __lsan_do_recoverable_leak_check && __lsan_do_recoverable_leak_check()) {
     fflush(NULL);
     _exit(87);
   }
@@ -958,6 +959,10 @@ life_restart(int die_at) {
   T.die_at = die_at;
   cur_op = 100;
   server_start(1);
+  if (die_at && die_at == R->ncalls + 1) { /* killed right after coap_persist_startup returned */
+    R->died_at = die_at;
+    _exit(137);
+  }
   T.die_at = 0;
   for (int i = 0; i < NRES; i++) {
     coap_str_const_t n = {strlen(res_names[i]), (const uint8_t *)res_names[i]};
@@ -1138,9 +1143,11 @@ helper_must(int st, int want_kill, const struct report *rep, const char *who) {
     }
     char sig[200];
     snprintf(sig, sizeof sig, "leak:%s:%s", who[4] == '1' ? "life1" : "restart", frame);
+    char what[80] = "?";
     char *dl = strstr(buf, "leak of");
-    vx_fail(sig, "%s: LeakSanitizer at the end of the life (after coap_persist_stop + coap_free_context): %.60s ... allocated under %s", who,
-            dl ? dl - 7 > buf ? dl - 7 : dl : "?", frame);
+    if (dl)
+      sscanf(dl - 7 > buf ? dl - 7 : dl, "%70[^\n]", what);
+    vx_fail(sig, "%s: LeakSanitizer at the end of the life (after coap_persist_stop + coap_free_context): %s under %s", who, what, frame);
     return;
   }
   fprintf(stderr, "VX-HARNESS: helper-died %s status=0x%x want_kill=%d\n", who, st, want_kill);
@@ -1437,9 +1444,11 @@ run(void *arg) {
   int kk = choose_crash(M);
   int die_at = 0;
   if (!kk) {
-    if (dry_cached) { /* the files are needed, not only the report */
+    if (dry_cached) { /* the files are needed, not only the report (leak verdict: given by the run that filled the cache) */
       memset(dry, 0, offsetof(struct report, blob));
+      g_leakcheck = 0;
       st = run_life(0, scn, dir, 0, dry);
+      g_leakcheck = 1;
       helper_must(st, 0, dry, "life1(crash-free)");
     }
     r1 = dry;
@@ -1472,8 +1481,8 @@ run(void *arg) {
   if (die_at) {
     if (r1->ops_done < scn->nops)
       op_str(&scn->ops[r1->ops_done], opname, sizeof opname);
-    if (crashed_in >= 0)
-      snprintf(ctx_sig, sizeof ctx_sig, "crash-in:%s", upd_names[r1->upd[crashed_in].type]);
+    if (crashed_in >= 0 && (r1->upd[crashed_in].type == U_TRACK || r1->upd[crashed_in].type == U_RES_DELETED))
+      snprintf(ctx_sig, sizeof ctx_sig, "crash-in:%s", upd_names[r1->upd[crashed_in].type]); /* the updaters of the counter file */
     vx_observe("kill before tracked call %d (%s) = after call %d; interrupted op #%d %s; interrupted updater %s; acknowledged ops: %d", die_at,
                die_at <= N ? kind_names[dry->kinds[die_at]] : "end-of-history", die_at - 1, r1->ops_done, opname,
                crashed_in >= 0 ? upd_names[r1->upd[crashed_in].type] : "none", r1->ops_done);
@@ -1545,7 +1554,12 @@ run(void *arg) {
     }
     copy_dir(dir, dir2);
   }
+  /* The restart is a function of the directory.  All kills inside one updater that leave every file in its
+   * pre-update state start the restart from the same directory: the restart runs for each of them, its (expensive)
+   * LeakSanitizer pass only for the first. */
+  g_leakcheck = !(crashed_in >= 0 && !strcmp(where, "pre") && die_at != r1->upd[crashed_in].call_in);
   st = run_life(1, scn, dir, 0, r2);
+  g_leakcheck = 1;
   helper_must(st, 0, r2, "life2(restart)");
   forward_fails(r2, "life 2");
   char ss[600];
@@ -1559,7 +1573,7 @@ run(void *arg) {
 
   /* ---- optional: a kill during the restart itself, judged by a second restart ---- */
   if (scn->lives >= 3) {
-    int M2 = vx_budget_left() > 0 ? r2->startup_calls : 0;
+    int M2 = vx_budget_left() > 0 ? r2->startup_calls + 1 : 0; /* before each call of the startup, and right after it */
     int k2 = choose_crash(M2);
     if (k2) {
       vx_nontrivial();
@@ -1576,7 +1590,7 @@ run(void *arg) {
       char g[NFILES][400];
       for (int f = 0; f < NFILES; f++)
         pfile_str(f, &G[f], g[f], sizeof g[0]);
-      const char *k2kind = kind_names[r2->kinds[k2]];
+      const char *k2kind = k2 <= r2->startup_calls ? kind_names[r2->kinds[k2]] : "end-of-startup";
       vx_observe("restart killed before its tracked call %d (%s); files: dyn=%s obs=%s cnt=%s", k2, k2kind, g[F_DYN], g[F_OBS], g[F_CNT]);
       for (int f = 0; f < NFILES; f++) {
         char sig[200];
@@ -1607,7 +1621,7 @@ run(void *arg) {
       if (vx_failed() == before) {
         char c2[100];
         snprintf(c2, sizeof c2, "kill-in-restart");
-        judge_restart(scn, r1, r3, F, &pre, &post, crashed_in, c2, "second restart (first restart was killed)");
+        judge_restart(scn, r1, r3, G, &pre, &post, crashed_in, c2, "second restart (first restart was killed)");
       }
       rep_free(fin2);
       set_dir(dir);
